@@ -18,7 +18,7 @@ def moves_in(loop):
 def run(ctx):
     repo = ctx.repo
     ctx.explanation = (
-        "Termination (a ranking argument over floats) is NOT decided; the final park move of tune_centroid is not decided. Decided: D1 in "
+        "Termination (a ranking argument over floats) is NOT decided; the final park move of tune_centroid is decided only as far as its target is a defined number (D2 centroid-defined). Decided: D1 in "
         "adaptive_scan and tune_centroid the only move inside the loop targets next_pos, the loop guard bounds next_pos (never beyond stop "
         "/ within [low_limit, high_limit]) and next_pos is not redefined between the guard and the move; the limits are min/max of start and "
         "stop; every update of next_pos happens after the move of that iteration.")
@@ -67,6 +67,21 @@ def run(ctx):
         for t_, v_ in pairs:
             if isinstance(t_, ast.Name) and t_.id in ("start", "stop") and A.norm(v_) not in ("start", "stop"):
                 refined.setdefault(t_.id, []).append(q.expand_at(gt, gt.nodes_of(st_)[0], v_, keep=("peak_position", "low_limit", "high_limit", "start", "stop", "step_factor")))
+    # the centre the range is refined around (and the motor is finally parked at) is a number inside the scanned range: the centroid division
+    # is reached only with a total signal that an explicit test found non-zero.  Relying on ZeroDivisionError instead is not equivalent:
+    # readings are numpy scalars, and 0.0 / 0.0 on those is nan with a warning - nan then passes every range comparison and np.clip
+    divs = [st_ for st_ in A.walk_stmts(f.node.body) if isinstance(st_, (ast.Assign, ast.AnnAssign)) and st_.value is not None
+            and any(isinstance(b, ast.BinOp) and isinstance(b.op, (ast.Div, ast.FloorDiv)) and isinstance(b.right, ast.Name) for b in ast.walk(st_.value))
+            and any(isinstance(t_, ast.Name) and t_.id == "peak_position" for t_ in A.targets_of(st_))]
+    for st_ in divs:
+        den = next(b.right.id for b in ast.walk(st_.value) if isinstance(b, ast.BinOp) and isinstance(b.op, (ast.Div, ast.FloorDiv)) and isinstance(b.right, ast.Name))
+        w1 = q.guard_true_dominates(gt, st_, lambda t_: A.norm(t_) in (f"{den} == 0", f"0 == {den}", f"not {den}"), "F")
+        w2 = q.guard_true_dominates(gt, st_, lambda t_: A.norm(t_) in (f"{den} != 0", f"0 != {den}", den, f"{den} > 0", f"0 < {den}"), "T")
+        ok = w1 is None or w2 is None
+        ctx.ob("C29.D2-centroid-defined", cname(f, st_), ok,
+               "" if ok else f"`{A.head(st_)}` can run with {den} == 0 (no explicit test excludes it): with numpy readings the quotient is nan, not an exception - the refined range "
+               "and the final position of the motor are then nan, which no range comparison rejects", nontrivial=True, witness=w1, where=where(f, st_))
+    ctx.require(divs, "anchor vanished: the centroid division in tune_centroid._tune_core")
     # each is np.clip(<centre -/+ half the new range>, low_limit, high_limit); the first argument is compared with the documented
     # formula peak -/+ (stop - start) / step_factor / 2 by exact identity testing (no matter how the half range was named / grouped)
     from .. import exprs
@@ -105,16 +120,20 @@ def run(ctx):
 CLAIM = {
     "text": "Does not decide termination. Decides that in adaptive_scan and tune_centroid the only move inside the scan loop goes to next_pos, which "
             "the loop guard bounds (never beyond stop / within [min, max] of start and stop) with no redefinition between guard and move, and that "
-            "tune_centroid's refined range is clipped to those limits.",
+            "tune_centroid's refined range is clipped to those limits. The centroid division is reached only after an explicit test found the total signal non-zero (numpy readings give nan, not ZeroDivisionError).",
     "technique": "guard dominance without intervening redefinition (def-use between the loop test and the move)",
 }
 
 L = "plans.py"
 MUTANTS = [
+    ("zero total signal left to ZeroDivisionError (seed C29-c)",
+     [("plans.py", "                if sum_I == 0:\n                    return\n                peak_position = sum_xI / sum_I  # centroid\n", "                try:\n                    peak_position = sum_xI / sum_I  # centroid\n                except ZeroDivisionError:\n                    return\n")], "C29.D2"),
     ("adaptive guard compares unsigned", [(L, "        while next_pos * direction_sign < stop * direction_sign:", "        while next_pos < stop * direction_sign:")], "C29.D1"),
     ("tune guard drops the upper limit", [(L, "        while abs(step) >= min_step and low_limit <= next_pos <= high_limit:", "        while abs(step) >= min_step and low_limit <= next_pos:")], "C29.D1"),
     ("adaptive steps before moving", [(L, "            yield Msg(\"checkpoint\")\n            yield from bps.mv(motor, next_pos)\n            yield Msg(\"create\", None, name=\"primary\")", "            yield Msg(\"checkpoint\")\n            next_pos += step * direction_sign\n            yield from bps.mv(motor, next_pos)\n            yield Msg(\"create\", None, name=\"primary\")")], "C29.D1"),
     ("refined range not clipped", [(L, "                start = np.clip(peak_position - new_scan_range / 2, low_limit, high_limit)", "                start = peak_position - new_scan_range / 2")], "C29.D1"),
     ("limits swapped", [(L, "    low_limit = min(start, stop)\n    high_limit = max(start, stop)", "    low_limit = max(start, stop)\n    high_limit = min(start, stop)")], "C29.D1"),
 ]
-BENIGN = []
+BENIGN = [
+    ("zero total signal tested with truthiness", [("plans.py", "                if sum_I == 0:\n                    return\n", "                if not sum_I:\n                    return\n")]),
+]
